@@ -94,6 +94,19 @@ def find_aliases(raw):
         out[e] = m
         used_m.add(m)
         used_e.add(e)
+    # one-for-one replacement within a file: exactly one function of a given (return type, arity) disappeared from the file
+    # and exactly one of that shape appeared in it (a helper moved to another type, renamed, receiver changed)
+    left_m = {m: f for m, f in missing.items() if m not in used_m}
+    left_e = {e: f for e, f in extra.items() if e not in used_e}
+    by_shape_m, by_shape_e = {}, {}
+    for m, f in left_m.items():
+        by_shape_m.setdefault((f['file'], f['ret'], len(f['args']), f['kind'] in ('Fn', 'AssocFn')), []).append(m)
+    for e, f in left_e.items():
+        by_shape_e.setdefault((f['file'], f['ret'], len(f['args']), f['kind'] in ('Fn', 'AssocFn')), []).append(e)
+    for shape, ms in by_shape_m.items():
+        es = by_shape_e.get(shape, [])
+        if len(ms) == 1 and len(es) == 1 and shape[2] >= 1:
+            out[es[0]] = ms[0]
     return out
 
 
